@@ -228,7 +228,10 @@ func vfC01PreExisting(cs vfC01Case, base, dest string) {
 
 func vfGenSeg(rt *rapid.T, label string, totalBytes int64) vfSeg {
 	var s vfSeg
-	switch rapid.IntRange(0, 6).Draw(rt, label+"_mode") {
+	switch rapid.IntRange(0, 7).Draw(rt, label+"_mode") {
+	case 7:
+		s.Mode = 5
+		s.Size = rapid.SampledFrom([]int{7, 64, 1000, 4096, 1 << 20}).Draw(rt, label+"_csize")
 	case 0, 1:
 		s.Mode = 0
 	case 2:
